@@ -109,6 +109,15 @@ Theorem C05_dag_iter_once : forall c,
   (forall i o, In (i, Some o) (dag_iter c) <-> In o (cycle_at c i)).
 Proof. exact dag_iter_once. Qed.
 
+(* composed with the history theorem: after every history of the modelled calls (any arguments;
+   unfold_all aside) from the empty circuit the DAG iterator yields exactly the grid iteration -
+   provided no operation has an empty location (a gate acts on at least one qudit) *)
+Theorem C05_history_dag_iter : forall ks n rs,
+  Forall no_unfold_all ks ->
+  let c := fold_left do_callF ks (mkC n rs []) in
+  wf_locs c -> dag_iter c = map (fun p => (fst p, Some (snd p))) (ops_with_cycles c).
+Proof. exact history_dag_iter. Qed.
+
 (* the range hypothesis is needed: `_front` only has the circuit's qudits *)
 Theorem C05_dag_iter_needs_range :
   let c := mkC 1 [2] [[Op false 1 [3] [] [2] []]] in
